@@ -829,10 +829,17 @@ pub fn exec_op(op: &Op) {
             let b = call_begin(id);
             let probe = Probe(id);
             let r = catch_unwind(|| {
-                d.desync(move |val| {
+                let job = move |val: &mut Val| {
                     let _p = probe;
                     run_sync_body(val, o, id, &body);
-                })
+                };
+                // the deprecated spelling of the same call is exercised too
+                if id % 5 == 4 {
+                    #[allow(deprecated)]
+                    d.r#async(job)
+                } else {
+                    d.desync(job)
+                }
             });
             call_end(id, b, match r {
                 Ok(()) => CallOutcome::Returned(None),
@@ -981,7 +988,9 @@ pub fn exec_op(op: &Op) {
             match take_handle(h) {
                 HandleSlot::Sched(f) => {
                     poll_stamp(h);
+                    let s0 = ev("sync_wait_begin", h as i64, 0);
                     w().hrec[h].awaiting = Some(me());
+                    w().hrec[h].await_started = Some(s0);
                     w().hrec[h].sync_wait = true;
                     let r = catch_unwind(|| f.sync());
                     w().hrec[h].awaiting = None;
